@@ -401,70 +401,110 @@ func (e *Exec) callArgs(fr *Frame, st *State, c *ssa.CallCommon) []Val {
 func (e *Exec) execCall(fr *Frame, st *State, in ssa.CallInstruction, c *ssa.CallCommon) Val {
 	v := e.execCall1(fr, st, in, c)
 	if fr.top && e.fc != nil {
-		if cs, ok := e.callOrd[in.(ssa.Instruction)]; ok {
-			for _, sec := range e.fc.Calls {
-				if sec.Callee != cs.name || sec.N != cs.k || (len(sec.Witness) == 0 && len(sec.Asserts) == 0 && len(sec.After) == 0) {
-					continue
+		if cs, ok := e.callOrd[in.(ssa.Instruction)]; ok && e.hasSiteAfter(cs) {
+			if val, ok := in.(ssa.Value); ok && val.Type() != nil {
+				fr.vals[val] = v
+			}
+			var args []*Val
+			for _, a := range c.Args {
+				if _, isAddr := fr.addrs[a]; !isAddr {
+					av := e.val(fr, a, st)
+					args = append(args, &av)
+				} else {
+					args = append(args, nil)
 				}
-				if val, ok := in.(ssa.Value); ok && val.Type() != nil {
-					fr.vals[val] = v
+			}
+			e.runSiteAfter(fr, st, in.(ssa.Instruction), cs, args, &v)
+		}
+	}
+	return v
+}
+
+func (e *Exec) hasSiteAfter(cs callSite) bool {
+	for _, sec := range e.fc.Calls {
+		if sec.Callee == cs.name && sec.N == cs.k && (len(sec.Witness) > 0 || len(sec.Asserts) > 0 || len(sec.After) > 0 || len(sec.Set) > 0) {
+			return true
+		}
+	}
+	return false
+}
+
+// runSiteAfter executes the clauses a contract attaches to the k-th call of a
+// callee (or the k-th channel send, named "send"): lemma instances, named
+// witnesses, intermediate assertions and ghost assignments, in that order.
+func (e *Exec) runSiteAfter(fr *Frame, st *State, in ssa.Instruction, cs callSite, args []*Val, ret *Val) {
+	for _, sec := range e.fc.Calls {
+		if sec.Callee != cs.name || sec.N != cs.k || (len(sec.Witness) == 0 && len(sec.Asserts) == 0 && len(sec.After) == 0 && len(sec.Set) == 0) {
+			continue
+		}
+		cenv := e.funcEnv(fr, st)
+		for i, a := range args {
+			if a != nil {
+				cenv.vars[fmt.Sprintf("arg%d", i)] = *a
+			}
+		}
+		if ret != nil {
+			v := *ret
+			cenv.vars["ret"] = v
+			if v.K == KTuple {
+				for ti, tv := range v.F {
+					cenv.vars[fmt.Sprintf("ret%d", ti)] = tv
 				}
-				cenv := e.funcEnv(fr, st)
-				for i, a := range c.Args {
-					if _, isAddr := fr.addrs[a]; !isAddr {
-						cenv.vars[fmt.Sprintf("arg%d", i)] = e.val(fr, a, st)
-					}
+			}
+		}
+		for _, lm := range sec.After {
+			e.instLemma(cenv, lm, st)
+		}
+		for _, w := range sec.Witness {
+			if identName(w.Expr) == "reached" {
+				// the call site was executed on this path (conditioned on the path)
+				prev, ok := e.siteVars[w.Name]
+				if !ok {
+					prev = vBool("false")
 				}
-				cenv.vars["ret"] = v
-				if v.K == KTuple {
-					for ti, tv := range v.F {
-						cenv.vars[fmt.Sprintf("ret%d", ti)] = tv
-					}
-				}
-				for _, lm := range sec.After {
-					e.instLemma(cenv, lm, st)
-				}
-				for _, w := range sec.Witness {
-					if identName(w.Expr) == "reached" {
-						// the call site was executed on this path (conditioned on the path)
-						prev, ok := e.siteVars[w.Name]
-						if !ok {
-							prev = vBool("false")
-						}
-						e.siteVars[w.Name] = vBool(e.S.Define("w_"+w.Name, "Bool", sOr(prev.t(), st.reach)))
-						continue
-					}
-					wv := e.evalExpr(cenv, w.Expr)
-					e.siteVars[w.Name] = e.nameVal("w_"+w.Name, wv, wv.T)
-					cenv.vars[w.Name] = e.siteVars[w.Name]
-				}
-				for i, a := range sec.Asserts {
-					lbl := a.Label
-					if lbl == "" {
-						lbl = fmt.Sprintf("%d", i+1)
-					}
-					e.lastSpecKey = ""
-					g := e.evalBool(cenv, a.Expr)
-					e.oblige(st, fmt.Sprintf("call:%s#%d:assert:%s", cs.name, cs.k, lbl), "assert", a.Tags, g, a.Text, in.Pos())
-					// `spec(args) == witness`: from here on the application is read as the
-					// witness (keeps later queries free of the definitions behind it)
-					if be, ok := a.Expr.(*ast.BinaryExpr); ok && be.Op == token.EQL {
-						if ce, ok := be.X.(*ast.CallExpr); ok {
-							if id, ok := be.Y.(*ast.Ident); ok {
-								if wv, isW := e.siteVars[id.Name]; isW && e.lastSpecKey != "" && identName(ce.Fun) == e.lastSpecName {
-									ents := e.specCache2[e.lastSpecKey]
-									if len(ents) > 0 {
-										ents[len(ents)-1].val = wv
-									}
-								}
+				e.siteVars[w.Name] = vBool(e.S.Define("w_"+w.Name, "Bool", sOr(prev.t(), st.reach)))
+				continue
+			}
+			wv := e.evalExpr(cenv, w.Expr)
+			e.siteVars[w.Name] = e.nameVal("w_"+w.Name, wv, wv.T)
+			cenv.vars[w.Name] = e.siteVars[w.Name]
+		}
+		for i, a := range sec.Asserts {
+			lbl := a.Label
+			if lbl == "" {
+				lbl = fmt.Sprintf("%d", i+1)
+			}
+			e.lastSpecKey = ""
+			g := e.evalBool(cenv, a.Expr)
+			e.oblige(st, fmt.Sprintf("call:%s#%d:assert:%s", cs.name, cs.k, lbl), "assert", a.Tags, g, a.Text, in.Pos())
+			// `spec(args) == witness`: from here on the application is read as the
+			// witness (keeps later queries free of the definitions behind it)
+			if be, ok := a.Expr.(*ast.BinaryExpr); ok && be.Op == token.EQL {
+				if ce, ok := be.X.(*ast.CallExpr); ok {
+					if id, ok := be.Y.(*ast.Ident); ok {
+						if wv, isW := e.siteVars[id.Name]; isW && e.lastSpecKey != "" && identName(ce.Fun) == e.lastSpecName {
+							ents := e.specCache2[e.lastSpecKey]
+							if len(ents) > 0 {
+								ents[len(ents)-1].val = wv
 							}
 						}
 					}
 				}
 			}
 		}
+		// ghost code at the site: all right-hand sides are evaluated in the state after the call
+		var newv []Val
+		for _, g := range sec.Set {
+			newv = append(newv, e.evalExpr(cenv, g.Expr))
+		}
+		for i, g := range sec.Set {
+			old, ok := st.ghost[g.Name]
+			if !ok {
+				fatalf("%s:%d: set of undeclared ghost %s", g.File, g.Line, g.Name)
+			}
+			st.ghost[g.Name] = castTo(newv[i], old.K, old.T)
+		}
 	}
-	return v
 }
 
 func (e *Exec) execCall1(fr *Frame, st *State, in ssa.CallInstruction, c *ssa.CallCommon) Val {
